@@ -185,6 +185,32 @@ func Run(r *core.Run) {
 			r.Class("library-made-jwk")
 		}
 	}
+	// a "signature" that needs no key: r = s = Qx mod n verifies for the public point Q wherever the digest of the signing input
+	// is taken to be empty; under every algorithm name of the five key types, unknown names and none
+	for _, t := range []string{"secp256k1", "P-256", "P-384", "P-521"} {
+		t := t
+		k := keys.New(t, 3)
+		n, w := keys.Curve(t).Params().N, keys.Width(t)
+		qx := new(big.Int).Mod(k.EC.X, n).FillBytes(make([]byte, w))
+		sig := append(append([]byte{}, qx...), qx...)
+		for _, a := range []string{"EdDSA", "ES256", "ES256K", "ES384", "ES512", "none", "HS256", "RS256", ""} {
+			a := a
+			id := fmt.Sprintf("digest-free-signature/%s/alg-%s", t, a)
+			r.Case(id, func() *core.Fail {
+				input := enc.EncodeToString([]byte(fmt.Sprintf(`{"alg":%q}`, a))) + "." + enc.EncodeToString([]byte(`{"forged":true}`))
+				compact := input + "." + enc.EncodeToString(sig)
+				det := map[string]any{"jwk": k.JWKMap(), "jws": compact}
+				if _, err := jwsutil.VerifyJWS(compact, jwkOf(k.JWKMap())); err == nil {
+					return &core.Fail{Key: "digest-free-signature/" + t, What: fmt.Sprintf("a JWS whose signature is the key's own x coordinate written twice verifies under the header algorithm %q", a), Detail: det}
+				}
+				if err := jwsutil.VerifySignature(jwkOf(k.JWKMap()), sig, []byte(input)); err == nil {
+					return &core.Fail{Key: "digest-free-signature/" + t, What: "a signature that is the key's own x coordinate written twice verifies", Detail: det}
+				}
+				return nil
+			})
+			r.Observe(id)
+		}
+	}
 	// a JWK that names a point (X, 0) - on none of the curves, of order two for the doubling formulas - and a signature made from
 	// public values alone (r = x(k*G) mod n, s = e/k mod n, k = 1..16): nobody holds a key for it, so nothing verifies under it
 	for _, t := range []string{"secp256k1", "P-256", "P-384", "P-521"} {
@@ -381,20 +407,25 @@ func Run(r *core.Run) {
 		sig := dec[2]
 		half := len(sig) / 2
 		surgery := map[string]string{
-			"two-segments":       seg[0] + "." + seg[1],
-			"four-segments":      it.compact + "." + seg[2],
-			"empty-signature":    seg[0] + "." + seg[1] + ".",
-			"empty-payload":      seg[0] + ".." + seg[2],
-			"empty-header":       "." + seg[1] + "." + seg[2],
-			"sig-truncated-1":    seg[0] + "." + seg[1] + "." + enc.EncodeToString(sig[:len(sig)-1]),
-			"sig-extended-1":     seg[0] + "." + seg[1] + "." + enc.EncodeToString(append(append([]byte{}, sig...), 0)),
-			"sig-leading-zero":   seg[0] + "." + seg[1] + "." + enc.EncodeToString(append([]byte{0}, sig...)),
-			"sig-doubled":        seg[0] + "." + seg[1] + "." + enc.EncodeToString(append(append([]byte{}, sig...), sig...)),
-			"sig-halves-swapped": seg[0] + "." + seg[1] + "." + enc.EncodeToString(append(append([]byte{}, sig[half:]...), sig[:half]...)),
-			"sig-all-zero":       seg[0] + "." + seg[1] + "." + enc.EncodeToString(make([]byte, len(sig))),
-			"padded-signature":   it.compact + "=",
-			"json-serialization": `{"protected":"` + seg[0] + `"}`,
-			"payload-of-other":   seg[0] + "." + enc.EncodeToString([]byte("other")) + "." + seg[2],
+			"two-segments":              seg[0] + "." + seg[1],
+			"four-segments":             it.compact + "." + seg[2],
+			"empty-signature":           seg[0] + "." + seg[1] + ".",
+			"empty-payload":             seg[0] + ".." + seg[2],
+			"empty-header":              "." + seg[1] + "." + seg[2],
+			"sig-truncated-1":           seg[0] + "." + seg[1] + "." + enc.EncodeToString(sig[:len(sig)-1]),
+			"sig-extended-1":            seg[0] + "." + seg[1] + "." + enc.EncodeToString(append(append([]byte{}, sig...), 0)),
+			"sig-leading-zero":          seg[0] + "." + seg[1] + "." + enc.EncodeToString(append([]byte{0}, sig...)),
+			"sig-zero-inserted-at-half": seg[0] + "." + seg[1] + "." + enc.EncodeToString(append(append(append([]byte{}, sig[:half]...), 0), sig[half:]...)),
+			"sig-zero-before-both":      seg[0] + "." + seg[1] + "." + enc.EncodeToString(append(append(append([]byte{0}, sig[:half]...), 0), sig[half:]...)),
+			"sig-zero-inserted-after-1": seg[0] + "." + seg[1] + "." + enc.EncodeToString(append(append(append([]byte{}, sig[:1]...), 0), sig[1:]...)),
+			"sig-zero-inserted-half-1":  seg[0] + "." + seg[1] + "." + enc.EncodeToString(append(append(append([]byte{}, sig[:half-1]...), 0), sig[half-1:]...)),
+			"sig-zero-inserted-half+1":  seg[0] + "." + seg[1] + "." + enc.EncodeToString(append(append(append([]byte{}, sig[:half+1]...), 0), sig[half+1:]...)),
+			"sig-doubled":               seg[0] + "." + seg[1] + "." + enc.EncodeToString(append(append([]byte{}, sig...), sig...)),
+			"sig-halves-swapped":        seg[0] + "." + seg[1] + "." + enc.EncodeToString(append(append([]byte{}, sig[half:]...), sig[:half]...)),
+			"sig-all-zero":              seg[0] + "." + seg[1] + "." + enc.EncodeToString(make([]byte, len(sig))),
+			"padded-signature":          it.compact + "=",
+			"json-serialization":        `{"protected":"` + seg[0] + `"}`,
+			"payload-of-other":          seg[0] + "." + enc.EncodeToString([]byte("other")) + "." + seg[2],
 		}
 		for name, c := range surgery {
 			judge(base+"/"+name, c, own, false)
